@@ -107,4 +107,105 @@ theorem step_tokens (cfg : Cfg) (sha : String → String) (hchk : cfg.emptyVpChe
       exact ⟨_, resp, by simp [step, hr], heff.token, rfl, by simpa [step] using hrec, by simpa [step] using heff.next, rfl, rfl⟩
     · left; simp only [step]; exact hfr
   | seed state nonce session => left; exact ⟨rfl, rfl⟩
+/-! ### histories -/
+
+theorem after_cons (cfg : Cfg) (sha : String → String) (t : Nat) (op : Op) (rest : List (Nat × Op)) (w : World) :
+    after cfg sha ((t, op) :: rest) w = after cfg sha rest (step cfg sha w t op).1 := by
+  simp [after, run]
+
+theorem after_append (cfg : Cfg) (sha : String → String) (a b : List (Nat × Op)) (w : World) :
+    after cfg sha (a ++ b) w = after cfg sha b (after cfg sha a w) := by
+  induction a generalizing w with
+  | nil => simp [after, run]
+  | cons x rest ih =>
+    obtain ⟨t, op⟩ := x
+    rw [List.cons_append, after_cons, after_cons, ih]
+
+/-- well-formedness of a history: DIDs that parse are non-empty -/
+def HistWF (h : List (Nat × Op)) : Prop :=
+  ∀ t r, (t, Op.s2s r) ∈ h → ∀ vp ∈ r.vps, vp.signer ≠ some ""
+
+/-- a token that is in the store after a history was either there before or was issued by an operation of it -/
+theorem token_in_store_was_issued (cfg : Cfg) (sha : String → String) (hchk : cfg.emptyVpChecked = true)
+    (httl : cfg.nonceTtl ≠ 0) (httl' : cfg.tokenTtl ≠ 0) :
+    ∀ (hist : List (Nat × Op)) (w : World), HistWF hist → ∀ (now : Nat) (tok : String) (rec : TokenRec),
+      (after cfg sha hist w).tokens.get now tok = some rec →
+      w.tokens.get now tok = some rec ∨
+      ∃ pre t op post, hist = pre ++ (t, op) :: post ∧ Issued cfg sha (after cfg sha pre w) t op tok rec ∧
+        now ≤ t + cfg.tokenTtl := by
+  intro hist
+  induction hist with
+  | nil => intro w _ now tok rec h; left; simpa [after, run] using h
+  | cons x rest ih =>
+    obtain ⟨t, op⟩ := x
+    intro w hwf now tok rec h
+    rw [after_cons] at h
+    have hwf' : HistWF rest := fun t' r hm => hwf t' r (List.mem_cons_of_mem _ hm)
+    rcases ih _ hwf' now tok rec h with h1 | ⟨pre, t', op', post, heq, hiss, hle⟩
+    · rcases step_tokens cfg sha hchk httl w t op (fun r hr vp hvp => hwf t r (by rw [hr]; exact List.mem_cons_self) vp hvp) with ⟨hsame, _⟩ | ⟨rec', hiss⟩
+      · left; rw [hsame] at h1; exact h1
+      · obtain ⟨resp, hout, htokn, hname, hput, hnext, hia, hexp⟩ := hiss
+        rw [hput] at h1
+        by_cases hk : tok = tokName w.nextTok
+        · subst hk
+          rw [Store.get_put_same _ _ _ _ _ _ httl'] at h1
+          split at h1
+          · rename_i hle
+            simp only [Option.some.injEq] at h1
+            subst h1
+            right
+            exact ⟨[], t, op, rest, rfl, ⟨resp, hout, htokn, hname, hput, hnext, hia, hexp⟩, hle⟩
+          · cases h1
+        · left
+          rw [Store.get_put_ne _ _ _ _ _ _ _ (fun e => hk e.symm)] at h1
+          exact h1
+    · right
+      refine ⟨(t, op) :: pre, t', op', post, by rw [heq]; rfl, ?_, hle⟩
+      rw [after_cons]; exact hiss
+
+/-- every key of the token store is a name the counter has already passed -/
+def TokKeys (w : World) : Prop := ∀ k, (∃ e, w.tokens.find k = some e) → ∃ n, k = tokName n ∧ n < w.nextTok
+
+theorem find_put_some {α : Type} (s : Store α) (now ttl : Nat) (k k' : String) (v : α) (e : Entry α)
+    (h : (s.put now ttl k' v).find k = some e) : k = k' ∨ s.find k = some e := by
+  by_cases hk : k' = k
+  · exact Or.inl hk.symm
+  · right; rw [Store.find_put_ne s now ttl k k' v hk] at h; exact h
+
+theorem tokKeys_step (cfg : Cfg) (sha : String → String) (hchk : cfg.emptyVpChecked = true) (httl : cfg.nonceTtl ≠ 0)
+    (w : World) (t : Nat) (op : Op) (hwf : ∀ r, op = .s2s r → ∀ vp ∈ r.vps, vp.signer ≠ some "")
+    (h : TokKeys w) : TokKeys (step cfg sha w t op).1 ∧ w.nextTok ≤ (step cfg sha w t op).1.nextTok := by
+  rcases step_tokens cfg sha hchk httl w t op hwf with ⟨hs, hn⟩ | ⟨rec, resp, _, _, _, hput, hnext, _, _⟩
+  · refine ⟨?_, by rw [hn]; exact Nat.le_refl _⟩
+    intro k hk; rw [hs] at hk; rw [hn]; exact h k hk
+  · refine ⟨?_, by rw [hnext]; omega⟩
+    intro k ⟨e, he⟩
+    rw [hput] at he
+    rcases find_put_some _ _ _ _ _ _ _ he with hk | hold
+    · exact ⟨w.nextTok, hk, by rw [hnext]; omega⟩
+    · obtain ⟨n, hn1, hn2⟩ := h k ⟨e, hold⟩
+      exact ⟨n, hn1, by rw [hnext]; omega⟩
+
+/-- an entry under an already-passed name is never touched again -/
+theorem token_entry_stable (cfg : Cfg) (sha : String → String) (hchk : cfg.emptyVpChecked = true)
+    (httl : cfg.nonceTtl ≠ 0) :
+    ∀ (hist : List (Nat × Op)) (w : World), HistWF hist → TokKeys w → ∀ (n : Nat), n < w.nextTok →
+      (after cfg sha hist w).tokens.find (tokName n) = w.tokens.find (tokName n) := by
+  intro hist
+  induction hist with
+  | nil => intro w _ _ n _; simp [after, run]
+  | cons x rest ih =>
+    obtain ⟨t, op⟩ := x
+    intro w hwf hkeys n hn
+    rw [after_cons]
+    have hwf' : HistWF rest := fun t' r hm => hwf t' r (List.mem_cons_of_mem _ hm)
+    have hwf0 : ∀ r, op = .s2s r → ∀ vp ∈ r.vps, vp.signer ≠ some "" :=
+      fun r hr vp hvp => hwf t r (by rw [hr]; exact List.mem_cons_self) vp hvp
+    obtain ⟨hk', hmono⟩ := tokKeys_step cfg sha hchk httl w t op hwf0 hkeys
+    rw [ih _ hwf' hk' n (by omega)]
+    rcases step_tokens cfg sha hchk httl w t op hwf0 with ⟨hs, _⟩ | ⟨rec, resp, _, _, _, hput, _, _, _⟩
+    · rw [hs]
+    · rw [hput]
+      exact Store.find_put_ne _ _ _ _ _ _ (fun e => by have := tokName_inj _ _ e; omega)
+
 end Nuts.C02
